@@ -197,6 +197,12 @@ func New(opts Options) (*World, error) {
 		}
 		balances = append(balances, banktypes.Balance{Address: Addr(n).String(), Coins: coins})
 	}
+	// a holder of very large balances (an 18-decimals asset reaches 2^63 base units at ~9 tokens)
+	whale := sdk.Coins{}
+	for _, d := range EscrowDenoms {
+		whale = whale.Add(sdk.NewCoin(d, sdkmath.NewIntFromBigInt(new(big.Int).Lsh(big.NewInt(1), 130))))
+	}
+	balances = append(balances, banktypes.Balance{Address: Addr("whale").String(), Coins: whale})
 	balances = append(balances, banktypes.Balance{
 		Address: Addr("delegator").String(),
 		Coins:   sdk.NewCoins(sdk.NewCoin(sdk.DefaultBondDenom, sdkmath.NewInt(1_000_000))),
